@@ -144,6 +144,9 @@ func (x *Exec) globalValue(s *State, v *types.Var) *Term {
 		if t := x.u.constInit(v); t != nil {
 			return withType(t, v.Type())
 		}
+		if t := x.inlineInit(s, v); t != nil {
+			return withType(t, v.Type())
+		}
 		return withType(V(name, srt), v.Type())
 	}
 	return withType(x.getSt(s, name, srt), v.Type())
@@ -763,4 +766,72 @@ func (x *Exec) sprintf(s *State, format ast.Expr, args []ast.Expr) *Term {
 		}
 	}
 	return catAll(parts)
+}
+
+// inlineInit: a never-assigned package-level variable whose initialiser is an expression over constants and other
+// never-assigned package-level variables (no calls) denotes that expression ("environment captured once").
+func (x *Exec) inlineInit(s *State, v *types.Var) *Term {
+	if x.inlining[v] {
+		return nil
+	}
+	p, ok := x.u.Pkgs[pkgShort(v.Pkg())]
+	if !ok {
+		return nil
+	}
+	var init ast.Expr
+	for _, file := range p.Syntax {
+		for _, d := range file.Decls {
+			gd, ok := d.(*ast.GenDecl)
+			if !ok || gd.Tok != token.VAR {
+				continue
+			}
+			for _, sp := range gd.Specs {
+				vs := sp.(*ast.ValueSpec)
+				for i, n := range vs.Names {
+					if p.TypesInfo.Defs[n] == v && i < len(vs.Values) && len(vs.Values) == len(vs.Names) {
+						init = vs.Values[i]
+					}
+				}
+			}
+		}
+	}
+	if init == nil {
+		return nil
+	}
+	simple := true
+	ast.Inspect(init, func(n ast.Node) bool {
+		switch n.(type) {
+		case *ast.CallExpr, *ast.FuncLit, *ast.CompositeLit, *ast.UnaryExpr:
+			if ue, ok := n.(*ast.UnaryExpr); ok && ue.Op != token.AND {
+				return true
+			}
+			simple = false
+		}
+		return true
+	})
+	if !simple {
+		return nil
+	}
+	if x.inlining == nil {
+		x.inlining = map[*types.Var]bool{}
+	}
+	x.inlining[v] = true
+	defer delete(x.inlining, v)
+	savedInfo := x.info
+	x.info = p.TypesInfo
+	defer func() { x.info = savedInfo }()
+	var t *Term
+	func() {
+		defer func() {
+			if r := recover(); r != nil {
+				if _, ok := r.(unsupported); ok {
+					t = nil
+					return
+				}
+				panic(r)
+			}
+		}()
+		t = x.eval(s, init)
+	}()
+	return t
 }
